@@ -108,6 +108,17 @@ func (c *ctx) probeConn(i int) {
 				}
 			}
 			expReplies = append(expReplies, pr)
+			if pr.Step.Reply != nil && !pr.Step.Reply.Sendable() {
+				// C02 on the server side: Reply must fail and write nothing for a value
+				// that does not fit its wire widths or breaks validation
+				if res, ok := c.replyResult(id, inv.Index); ok && res == "" {
+					c.vs("C02/unrepresentable-reply-encoded", pr.Step.Reply.Kind, "conn %d invocation %d: Reply accepted a %s value that does not fit its wire widths or breaks the type's validation rules", id, inv.Index, pr.Step.Reply.Kind)
+				}
+			} else if pr.Step.Reply != nil {
+				if res, ok := c.replyResult(id, inv.Index); ok && res != "" && pr.H.Seq != 255 {
+					c.vs("C02/representable-reply-refused", pr.Step.Reply.Kind, "conn %d invocation %d: Reply refused a representable %s value: %s", id, inv.Index, pr.Step.Reply.Kind, res)
+				}
+			}
 		case "terminate", "badsecret", "truncated", "oversize":
 			if k < len(invs) {
 				inv := invs[k]
@@ -143,6 +154,30 @@ func (c *ctx) probeConn(i int) {
 	}
 replies:
 	c.probeReplies(id, cs, srvKey, expReplies, replies, tail, complete, quiet)
+}
+
+// replyResult returns the error text (empty = success) of the first Reply call made
+// inside the given invocation.
+func (c *ctx) replyResult(conn, idx int) (string, bool) {
+	in := false
+	for _, e := range c.r.Events {
+		if e.Conn != conn {
+			continue
+		}
+		switch e.Kind {
+		case "invoke":
+			in = int(e.A) == idx
+		case "invoke-end":
+			if int(e.A) == idx {
+				return "", false
+			}
+		case "reply-result":
+			if in {
+				return e.S, true
+			}
+		}
+	}
+	return "", false
 }
 
 // sessionSaw255: an earlier packet of the same session on this connection was numbered 255.
